@@ -7,7 +7,7 @@ from props import c06_extract as T
 
 NSLOT, NOBJ, NVAR, NCALL, NSENT = 10, 4, 4, 4, 4
 LAYOUTS = [(1, 1), (1, 2), (2, 1), (3, 1)]      # replace_program() family: variables of the first / second inherit
-NEFUN = 88
+NEFUN = 89
 # groups that build a cycle while they run (an error injected in the middle legitimately leaves cyclic garbage) or
 # keep a call_out handle in a local (71: the injected error would leave the call_out pending)
 NO_FAULT = (13, 48, 71)
@@ -373,7 +373,7 @@ class Gen:
             ao = [o for o in self.alive_objs() if self.lay[o] is None and not self.robj[o]]
             o = r.choice(ao) if ao and r.chance(9, 10) else r.below(NOBJ)
             rearm = r.chance(1, 3)
-            if o in ao and not self.inp:
+            if o in ao and not self.inp:            # while one is pending the call is refused (and nothing is kept)
                 self.inp = (o, rearm)
             self.emit("%s %d %d %d" % ("inpr" if rearm else "inp", o, self.pick_slot(), self.pick_slot()))
         elif k == "input":
@@ -853,6 +853,10 @@ class C06(Prop):
             mk("input_to-rearmed-" + mode, mode,
                ["newobj 1", "newarr 0 2", "newmap 1", "inpr 1 0 1", "free 0", "input", "inp 1 1 1", "free 1", "input", "input",
                 "newcls 2", "inpr 1 2 2", "dest 1", "free 2", "input", "input", "cleanup", "drop 1"])
+            # input_to while one is pending: refused, the sentence and function pointer made for it are released again
+            mk("input_to-refused-" + mode, mode,
+               ["newobj 1", "newobj 2", "newarr 0 2", "inp 1 0 0", "inp 2 0 0", "inpr 1 0 0", "inp 1 0 0", "free 0", "dest 2", "input", "inp 1 1 1",
+                "input", "dest 1", "cleanup", "drop 1", "drop 2"])
             mk("input_to-delivered-" + mode, mode,
                ["newobj 1", "newarr 0 2", "newfun 1 1 0", "inp 1 0 1", "inp 1 1 1", "free 0", "free 1", "input", "input",
                 "inp 1 0 0", "dest 1", "input", "cleanup", "drop 1"])
